@@ -178,7 +178,9 @@ where
                 Poll::Pending => (),
             }
 
-            if server.is_some() {
+            // Only take the next reply once the previous one has been handed to its requestor,
+            // otherwise a reply waiting for a slow requestor sink would be overwritten.
+            if server.is_some() && buffered_rep.is_none() {
                 let st = &mut server.as_mut().as_pin_mut().unwrap().1;
 
                 match st.poll_next_unpin(cx) {
@@ -202,7 +204,7 @@ where
                         server_pending = true;
                     }
                 }
-            } else {
+            } else if server.is_none() {
                 // Without a replier there is nothing to wait for on this side
                 server_pending = true;
             }
